@@ -32,7 +32,7 @@ CHECKS = {
                 note="Growth slower than one cell per ~9800 iterations would not be seen; process loops are outside (single-process runner)."),
     "C18": dict(engine="enum", category="exploration", design="7/C18",
                 technique="bounded-exhaustive enumeration of token strings, all single-token mutations and prefixes of a corpus, and nesting ladders, each parsed/compiled in watchdogged child processes",
-                text="All strings of <= 4 (thorough 5) tokens over a 43-token alphabet, every char-boundary prefix and single-token deletion/duplication/substitution of 1186 corpus sources, 44 nesting-ladder families to depth 100 (well-formed, unclosed, and with a wrong closer at the bottom), shape families (multi-line strings, alias-spread type expressions, imports of 12 in-memory modules whose top level waits, fails or is fine): parse returns within 2 CPU-seconds with a program or an error whose span lies inside the input on char boundaries with consistent line/column; accepted programs compile to Ok/Err within 5 CPU-seconds; no panic, no crash (two known findings: exponential backtracking on nested parentheses and on nested `! [` lists that do not parse).",
+                text="All strings of <= 4 (thorough 5) tokens over a 43-token alphabet, every char-boundary prefix and single-token deletion/duplication/substitution of 1186 corpus sources, 44 nesting-ladder families to depth 100 (well-formed, unclosed, and with a wrong closer at the bottom), shape families (multi-line strings, alias-spread type expressions, imports of 12 in-memory modules whose top level waits, fails or is fine): parse returns within 2 CPU-seconds with a program or an error whose span lies inside the input on char boundaries with consistent line/column; accepted programs compile to Ok/Err within 5 CPU-seconds; no panic, no crash (one known finding: exponential backtracking on nested parentheses).",
                 note="Quick caps per source are reported in caps_hit; texts mentioning std modules compile in a warm session clone (as the REPL does) and failures are re-checked fresh."),
     "C20": dict(engine="enum", category="exploration", design="5.4, 7/C20",
                 technique="exhaustive evaluation of all num operations on an operand alphabet (unary, all pairs, law triples) against hand-written exact arithmetic in Q and Q(sqrt n)",
